@@ -4,7 +4,6 @@ import (
 	"fmt"
 	"go/types"
 	"math/big"
-	"sort"
 	"strings"
 )
 
@@ -169,7 +168,7 @@ func (c *Ctx) sortOf(t types.Type) string {
 		n := "TP_" + sanitize(tp.Obj().Name())
 		if !c.tparams[n] {
 			c.tparams[n] = true
-			c.sortDecl = append(c.sortDecl, fmt.Sprintf("(declare-sort %s 0)", n))
+			c.sortDecl = append(c.sortDecl, fmt.Sprintf("(declare-datatypes ((%s 0)) (((mk_%s (id_%s Int)))))", n, n, n))
 		}
 		return n
 	}
@@ -643,16 +642,20 @@ func (c *Ctx) Prelude() string {
 	sb.WriteString("(define-fun is_lelem ((l Loc)) Bool ((_ is lelem) l))\n")
 	sb.WriteString("(define-fun-rec rootof ((l Loc)) Int (ite ((_ is lnil) l) (- 1) (ite ((_ is lroot) l) (rid l) (ite ((_ is lfield) l) (rootof (fbase l)) (rootof (ebase l))))))\n")
 	sb.WriteString(fmt.Sprintf("(declare-datatypes ((Slice 0)) (((mkslice (sbase Loc) (soff %s) (slen %s) (scap %s)))))\n", idx, idx, idx))
-	sb.WriteString("(declare-sort Str 0)\n(declare-sort F64 0)\n(declare-sort Iface 0)\n(define-sort MapRef () Int)\n(declare-sort ChanRef 0)\n(declare-sort Fn 0)\n(declare-sort Opaque 0)\n")
+	// Opaque value sorts are one-constructor datatypes over an integer id, so that nil / zero values and
+	// string literals are *values* (cvc5 requires values in constant arrays) and literals are distinct.
+	sb.WriteString("(declare-datatypes ((Str 0)) (((str_mk (str_id Int)))))\n(declare-datatypes ((F64 0)) (((f64_mk (f64_id Int)))))\n")
+	sb.WriteString("(declare-datatypes ((Iface 0)) (((iface_nil) (iface_mk (iface_id Int)))))\n(define-sort MapRef () Int)\n")
+	sb.WriteString("(declare-datatypes ((ChanRef 0)) (((chan_nil) (chan_mk (chan_id Int)))))\n(declare-datatypes ((Fn 0)) (((fn_nil) (fn_mk (fn_id Int)))))\n(declare-datatypes ((Opaque 0)) (((opq_mk (opq_id Int)))))\n")
 	sb.WriteString(fmt.Sprintf("(declare-fun str_len (Str) %s)\n(declare-fun str_at (Str %s) %s)\n", idx, idx, c.sortOf(types.Typ[types.Uint8])))
-	sb.WriteString("(declare-const iface_nil Iface)\n(define-fun map_nil () MapRef (- 1))\n(declare-const fn_nil Fn)\n(declare-const chan_nil ChanRef)\n(declare-fun iface_type (Iface) Int)\n")
+	sb.WriteString("(define-fun map_nil () MapRef (- 1))\n(declare-fun iface_type (Iface) Int)\n(define-fun fzero () F64 (f64_mk 0))\n")
 	for _, s := range c.sortDecl {
 		sb.WriteString(s + "\n")
 	}
 	// string constants
 	for i, s := range c.strOrder {
 		n := c.strs[s]
-		sb.WriteString(fmt.Sprintf("(declare-const %s Str)\n", n))
+		sb.WriteString(fmt.Sprintf("(define-fun %s () Str (str_mk %d))\n", n, i))
 		sb.WriteString(fmt.Sprintf("(assert (= (str_len %s) %s))\n", n, c.idxLit(int64(len(s)))))
 		if len(s) <= 600 {
 			for j := 0; j < len(s); j++ {
@@ -660,14 +663,6 @@ func (c *Ctx) Prelude() string {
 			}
 		}
 		_ = i
-	}
-	if len(c.strOrder) > 1 {
-		var ns []string
-		for _, s := range c.strOrder {
-			ns = append(ns, c.strs[s])
-		}
-		sort.Strings(ns)
-		sb.WriteString("(assert (distinct " + strings.Join(ns, " ") + "))\n")
 	}
 	for _, d := range c.funDecls {
 		sb.WriteString(d + "\n")
